@@ -5,7 +5,9 @@ Reset-on-get, and the shape of a generated Render: context check, GetBuffer, a s
 an error check, expression errors, nested components sharing the buffer, deferred ReleaseBuffer (flush; its error is
 adopted only if none is set).
 The caller's writer fails at a byte offset: it accepts bytes up to `limit` and then returns an error, either after
-taking the part of the chunk that still fits ("short write") or without taking any of it ("zero write").
+taking the part of the chunk that still fits ("short write") or without taking any of it ("zero write"). A `silent`
+writer breaks the io.Writer contract: from the limit on it takes less than it was given and returns NO error;
+runtime.Buffer puts a checking writer between bufio and the caller's writer that turns this into io.ErrShortWrite.
 -/
 namespace TemplVerif.Buf
 open TemplVerif
@@ -16,6 +18,7 @@ structure Under where
   limit : Option Nat := none      -- total bytes it will accept; none = never fails
   zeroWrite : Bool := false       -- on the failing call: accept nothing (true) or what still fits (false)
   stringWriter : Bool := true     -- the writer implements io.StringWriter (bufio.WriteString may bypass its buffer)
+  silent : Bool := false          -- the failing call (and every later one) returns no error
 deriving DecidableEq, Repr
 
 /-- One `Write(p)` on the caller's writer: the new state, bytes taken, error?. -/
@@ -25,8 +28,13 @@ def Under.write (u : Under) (p : Bytes) : Under × Nat × Bool :=
   | some k =>
     let room := k - u.accepted.length
     if p.length ≤ room then ({ u with accepted := u.accepted ++ p }, p.length, false)
-    else if u.zeroWrite then (u, 0, true)
-    else ({ u with accepted := u.accepted ++ p.take room }, room, true)
+    else if u.zeroWrite then (u, 0, !u.silent)
+    else ({ u with accepted := u.accepted ++ p.take room }, room, !u.silent)
+
+/-- runtime.checkedWriter / checkedStringWriter: a write accepted only in part without an error is io.ErrShortWrite. -/
+def Under.writeChecked (u : Under) (p : Bytes) : Under × Nat × Bool :=
+  let (u', n, e) := u.write p
+  (u', n, e || n < p.length)
 
 /-- bufio.Writer -/
 structure BW where
@@ -43,9 +51,15 @@ def BW.flush (b : BW) : BW :=
   if b.err then b
   else if b.buf.isEmpty then b
   else
-    let (u', n, e) := b.u.write b.buf
+    let (u', n, e) := b.u.writeChecked b.buf
     if e || n < b.buf.length then { b with u := u', buf := b.buf.drop n, err := true }
     else { b with u := u', buf := [] }
+
+/-- One pass of bufio's loop for a large write into an empty buffer WITHOUT the checking writer, as before the repair
+    `0f5e0ab`: the new writer state and the bytes still to be written. -/
+def BW.largeStepUnchecked (b : BW) (p : Bytes) : BW × Bytes :=
+  let (u', n, e) := b.u.write p
+  ({ b with u := u', err := e }, p.drop n)
 
 /-- `Write` / `WriteString`: the loop `for len(p) > Available() && err == nil`. -/
 def BW.writeAux : Nat → BW → Bytes → BW
@@ -54,7 +68,7 @@ def BW.writeAux : Nat → BW → Bytes → BW
     if p.length > b.available && !b.err then
       if b.buf.isEmpty then
         -- large write, empty buffer: straight to the underlying writer
-        let (u', n, e) := b.u.write p
+        let (u', n, e) := b.u.writeChecked p
         let b' := { b with u := u', err := e }
         if n == 0 && !e then b' else BW.writeAux fuel b' (p.drop n)
       else
@@ -73,7 +87,7 @@ def BW.writeStringAux : Nat → BW → Bytes → BW
   | fuel + 1, b, p =>
     if p.length > b.available && !b.err then
       if b.buf.isEmpty && b.u.stringWriter then
-        let (u', n, e) := b.u.write p
+        let (u', n, e) := b.u.writeChecked p
         let b' := { b with u := u', err := e }
         if n == 0 && !e then b' else BW.writeStringAux fuel b' (p.drop n)
       else
